@@ -237,6 +237,10 @@ MUST_FIRE += [
     ("m86", ["C16"], ["K6"], rep1(S + "find_local_clifford_layer.py", "c2 = row[i*4+2] | row[i*4+3]", "c2 = row[2] | row[3]"), "filter looks at qubit 0's coefficients for every qubit"),
     ("m87", ["C11"], ["W11"], rep1(S + "tomography.py", "circuit_result = CircuitResult(counts, qubits)  # type: ignore", "circuit_result = CircuitResult(counts)  # type: ignore"), "marginalisation skipped in the fitter"),
     ("m88", ["C13"], ["A4"], rep1(S + "stabilizer.py", "            if self.R.dtype != np.int8:\n                self.R = self.R.astype(np.int8)\n            if self.S.dtype != np.int8:\n                self.S = self.S.astype(np.int8)\n        elif isinstance(data, list):", "            if self.R.dtype != np.int8:\n                self.R = self.R.astype(np.int8)\n            if self.S.dtype != np.int8:\n                self.S = self.S.astype(np.int8)\n            self.R &= 1\n            self.S &= 1\n        elif isinstance(data, list):"), "matrix branch of the constructor reduces the caller's int8 arrays in place"),
+    ("m89", ["C08"], ["G6"], multi(rep1(S + "tomography.py", "    num_qubits = preparation_circuit.num_qubits if measured_qubits is None else len(measured_qubits)\n", "    _check_connectivity_name(connectivity)\n    num_qubits = preparation_circuit.num_qubits if measured_qubits is None else len(measured_qubits)\n"), rep1(S + "tomography.py", "Bitstring = np.int64\n", "Bitstring = np.int64\nConnectivity = Literal[\"all\", \"linear\", \"star\", \"cycle\", \"T\", \"Q\"]\n\n\ndef _check_connectivity_name(connectivity: str):\n    if connectivity not in get_args(Connectivity):\n        raise ValueError(f\"Unknown connectivity '{connectivity}'\")\n"), rep1(S + "tomography.py", "from typing import Dict, List, Literal, Optional, Sequence, Tuple, Union\n", "from typing import Dict, List, Literal, Optional, Sequence, Tuple, Union, get_args\n")), "early name check against a Literal that lacks the 6-qubit connectivities"),
+    ("m90", ["C08"], ["G6"], rep1(S + "tomography.py", "    num_qubits = preparation_circuit.num_qubits if measured_qubits is None else len(measured_qubits)\n", "    if not is_connectivity_supported(preparation_circuit.num_qubits, connectivity):\n        raise ValueError(\"unsupported\")\n    num_qubits = preparation_circuit.num_qubits if measured_qubits is None else len(measured_qubits)\n") if False else
+        multi(rep1(S + "tomography.py", "    num_qubits = preparation_circuit.num_qubits if measured_qubits is None else len(measured_qubits)\n", "    if not is_connectivity_supported(preparation_circuit.num_qubits, connectivity):\n        raise ValueError(\"unsupported\")\n    num_qubits = preparation_circuit.num_qubits if measured_qubits is None else len(measured_qubits)\n"),
+              rep1(S + "tomography.py", "from .mub_circuits import get_mub_circuits\n", "from .mub_circuits import get_mub_circuits\nfrom .connectivity_support import is_connectivity_supported\n")), "early validation on the register size instead of the number of measured qubits"),
     ("m72", ["C13"], ["A3"], rep1(S + "circuit_lookup.py", "result.circuits = [circuit.copy() for circuit in self.circuits]", "result.circuits = list(self.circuits)"), "fresh list of the cached circuits"),
 ]
 
@@ -270,6 +274,7 @@ MUST_STAY_SILENT = [
     ("s21", ["C13"], multi(rep1(S + "lc_classes.py", "def index_of_first_set_bit(bitstring: int):", "@functools.lru_cache(maxsize=None)\ndef index_of_first_set_bit(bitstring: int) -> int:"), rep1(S + "lc_classes.py", "import itertools\n", "import itertools\nimport functools\n")), False, "memoised pure function returning an int"),
     ("s24", ["C02", "C04", "C07"], rep1(S + "circuit_lookup.py", "            if instruction[1] == 'x':\n                qc.cx(qubits[0], qubits[1])\n            elif instruction[1] == 'z':\n                qc.cz(qubits[0], qubits[1])\n            else:\n                assert False, \"Invalid instruction name\"", "            assert instruction[1] in 'xz', \"Invalid instruction name\"\n            getattr(qc, instruction[:2])(qubits[0], qubits[1])"), True, "loader dispatches through getattr: outside the vocabulary, must end in exit 2, never in an alarm"),
     ("s25", ["C07"], rep1(S + "stabilizer.py", "            if self.R.dtype != np.int8:\n                self.R = self.R.astype(np.int8)\n            if self.S.dtype != np.int8:\n                self.S = self.S.astype(np.int8)\n        elif isinstance(data, list):", "            if self.R.dtype != np.int8:\n                self.R = self.R.astype(np.int8)\n            if self.S.dtype != np.int8:\n                self.S = self.S.astype(np.int8)\n            self.R &= 1\n            self.S &= 1\n        elif isinstance(data, list):"), False, "the in-place reduction happens only in the tuple branch: a circuit passed to compress is not touched (C07 holds, C13 does not)"),
+    ("s26", ["C08", "C02"], multi(rep1(S + "tomography.py", "    num_qubits = preparation_circuit.num_qubits if measured_qubits is None else len(measured_qubits)\n", "    _check_connectivity_name(connectivity)\n    num_qubits = preparation_circuit.num_qubits if measured_qubits is None else len(measured_qubits)\n"), rep1(S + "tomography.py", "Bitstring = np.int64\n", "Bitstring = np.int64\nConnectivity = Literal[\"all\", \"linear\", \"star\", \"cycle\", \"T\", \"Q\", \"E\", \"H\", \"ladder\"]\n\n\ndef _check_connectivity_name(connectivity: str):\n    if connectivity not in get_args(Connectivity):\n        raise ValueError(f\"Unknown connectivity '{connectivity}'\")\n"), rep1(S + "tomography.py", "from typing import Dict, List, Literal, Optional, Sequence, Tuple, Union\n", "from typing import Dict, List, Literal, Optional, Sequence, Tuple, Union, get_args\n")), False, "early name check against the complete list of names"),
     ("s16", ["C09", "C13", "C02"], rep1(S + "mub_circuits.py", "return circuit_lookup.mub_circuit_lookup(num_qubits, connectivity).circuits", "return [c for c in circuit_lookup.mub_circuit_lookup(num_qubits, connectivity).circuits]"), False, "identity comprehension"),
     ("s15", ["C13"], rep1(S + "graph.py", "    def copy(self):\n        result = Graph(self.num_vertices)", "    def copy(self):\n        # fresh object\n        result = Graph(self.num_vertices)"), False, "comment"),
 ]
@@ -312,6 +317,45 @@ def _run_one(args):
     return (kind, mid, pid, "silent", "")
 
 
+def seeded_expectations():
+    """seeded/EXPECTED.json: {seed id: {property: 'violation' | 'pass' | 'refused'}} - the outcome each check is
+    pinned to on each independently seeded change (reviewed by hand; regenerated with tools/seed_expect.py)"""
+    import json
+    p = os.path.join(os.path.dirname(os.path.dirname(os.path.abspath(__file__))), "seeded", "EXPECTED.json")
+    if not os.path.exists(p):
+        return {}
+    return json.load(open(p))
+
+
+def _run_seed(args):
+    sid, pid, root, want = args
+    from .main import run_property
+    from .report import AnalysisError as AE
+    from .udiff import apply_patch
+    base = os.path.join(os.path.dirname(os.path.dirname(os.path.abspath(__file__))), "seeded", sid, "patch.diff")
+    ov = apply_patch(Tree(root), open(base).read())
+    if ov is None:
+        return ("seed", sid, pid, "skipped", "patch does not apply to this tree")
+    try:
+        rep, _ = run_property(pid, "quick", root, overlay=ov, quiet=True)
+        for rid, r in rep.rules.items():
+            if r["instances"] < r["floor"]:
+                raise AE(f"rule {rid} below floor")
+        new = rep.new_findings()
+        got = "violation" if new else "pass"
+        msg = f"{new[0].rule}: {new[0].what[:150]}" if new else ""
+    except AE as e:
+        got, msg = "refused", f"ANALYSIS-ERROR {str(e)[:160]}"
+    except Exception:
+        import traceback
+        return ("seed", sid, pid, "error", "internal: " + traceback.format_exc()[-300:])
+    if want is None:
+        return ("seed", sid, pid, "observed:" + got, msg)
+    if got == want:
+        return ("seed", sid, pid, "detected" if got == "violation" else "silent", f"[{got}] {msg}")
+    return ("seed", sid, pid, "missed" if want == "violation" else "false-alarm" if got == "violation" else "changed", f"pinned outcome {want}, got {got}: {msg}")
+
+
 def jobs_for(pid=None):
     js = []
     for e in MUST_FIRE:
@@ -325,9 +369,20 @@ def jobs_for(pid=None):
     return js
 
 
-def run_jobs(js, root):
+def seed_jobs(pid=None, root="/repo"):
+    out = []
+    for sid, per in sorted(seeded_expectations().items()):
+        for p, want in sorted(per.items()):
+            if pid is None or p == pid:
+                out.append((sid, p, root, want))
+    return out
+
+
+def run_jobs(js, root, seeds=()):
     with concurrent.futures.ProcessPoolExecutor(max_workers=min(16, os.cpu_count() or 4)) as ex:
-        return list(ex.map(_run_one, [j + (root,) for j in js]))
+        a = list(ex.map(_run_one, [j + (root,) for j in js]))
+        b = list(ex.map(_run_seed, list(seeds)))
+    return a + b
 
 
 def summarise(results):
@@ -336,7 +391,7 @@ def summarise(results):
         out["details"].append({"id": mid, "kind": kind, "property": pid, "status": status, "message": msg})
         if status == "detected":
             out["detected"] += 1
-        elif status in ("silent", "error-tolerated"):
+        elif status in ("silent", "error-tolerated") or status.startswith("observed:"):
             out["silent"] += 1
         elif status == "skipped":
             out["skipped"].append(f"{mid}/{pid}")
@@ -346,11 +401,11 @@ def summarise(results):
 
 
 def run_for_property(pid, root):
-    return summarise(run_jobs(jobs_for(pid), root))
+    return summarise(run_jobs(jobs_for(pid), root, seed_jobs(pid, root)))
 
 
 def main(root):
-    res = run_jobs(jobs_for(None), root)
+    res = run_jobs(jobs_for(None), root, seed_jobs(None, root))
     s = summarise(res)
     for d in s["details"]:
         print(f"{d['status']:>16}  {d['id']:<5} {d['property']}  {d['message'][:170]}")
